@@ -10,6 +10,8 @@
 EXTENDS Naturals, Sequences, TLC, Words
 S4 == INSTANCE SM4
 G == INSTANCE GCM WITH EK <- S4!CryptWithKeys
+S3 == INSTANCE SM3
+U == INSTANCE Util
 VARIABLES l, st, bad
 
 RECURSIVE Lanes(_, _, _, _)
@@ -48,6 +50,15 @@ Expect(s, ev) ==
          [st |-> s,
           ok |-> ~ev.fault /\ ev.panic = "" /\ ev.out = G!Unlimbs(G!GHashAcc(G!Limbs(ev.h), ev.data, 1, G!Limbs(ev.tag))),
           why |-> Why(ev, "ghash")]
+
+    [] ev.op = "guard.sm3" ->
+         LET d == S3!Hash(ev.data)
+             pre == [i \in 1..ev.inlen |-> i - 1]
+         IN [st |-> s,
+             ok |-> ~ev.fault /\ ev.panic = "" /\ ev.out = pre \o d /\ ev.oneshot = d /\ ev.data_after = ev.data,
+             why |-> Why(ev, "sm3")]
+    [] ev.op = "guard.cmp" ->
+         [st |-> s, ok |-> ~ev.fault /\ ev.panic = "" /\ ev.res = U!LexCmp(ev.a, ev.b, Len(ev.a)), why |-> Why(ev, "cmp")]
 
 InitSt == <<>>
 TC == INSTANCE TraceCommon
